@@ -3,46 +3,46 @@ import NcVerif.Model.Lock
 namespace NcVerif.LockP
 open NcVerif NcVerif.Lock
 
-theorem run_skip (srv : Server) (tr : List Ev) : run srv .skip tr = (tr, none) := by
+theorem run_skip (srv : Server) (m : Mode) (tr : List Ev) : run srv m .skip tr = (tr, none) := by
   simp only [run]
 
-theorem run_raise (srv : Server) (e : Nat) (tr : List Ev) :
-    run srv (.raise e) tr = (tr, some (.body e)) := by
+theorem run_raise (srv : Server) (m : Mode) (e : Nat) (tr : List Ev) :
+    run srv m (.raise e) tr = (tr, some (.body e)) := by
   simp only [run]
 
-theorem run_req_fst (srv : Server) (n : Nat) (tr : List Ev) :
-    (run srv (.req n) tr).1 = tr ++ [.req n] := by
+theorem run_req_fst (srv : Server) (m : Mode) (n : Nat) (tr : List Ev) :
+    (run srv m (.req n) tr).1 = tr ++ [.req n] := by
   simp only [run]
 
-theorem run_seq_some (srv : Server) (a b : Prog) (tr tr' : List Ev) (x : Exc)
-    (h : run srv a tr = (tr', some x)) : run srv (.seq a b) tr = (tr', some x) := by
+theorem run_seq_some (srv : Server) (m : Mode) (a b : Prog) (tr tr' : List Ev) (x : Exc)
+    (h : run srv m a tr = (tr', some x)) : run srv m (.seq a b) tr = (tr', some x) := by
   simp only [run, h]
 
-theorem run_seq_none (srv : Server) (a b : Prog) (tr tr' : List Ev)
-    (h : run srv a tr = (tr', none)) : run srv (.seq a b) tr = run srv b tr' := by
+theorem run_seq_none (srv : Server) (m : Mode) (a b : Prog) (tr tr' : List Ev)
+    (h : run srv m a tr = (tr', none)) : run srv m (.seq a b) tr = run srv m b tr' := by
   simp only [run, h]
 
 /-- Lock refused: nothing else happens. -/
-theorem run_locked_refused (srv : Server) (t : Nat) (body : Prog) (tr : List Ev)
+theorem run_locked_refused (srv : Server) (m : Mode) (t : Nat) (body : Prog) (tr : List Ev)
     (h : refused (srv (tr ++ [.lock t])) = true) :
-    run srv (.locked t body) tr = (tr ++ [.lock t], some (.rpc (.lock t))) := by
+    run srv m (.locked t body) tr = (tr ++ [.lock t], some (.rpc (.lock t))) := by
   simp only [run, h, if_true]
 
 /-- Lock granted: trace is the body's trace plus the unlock. -/
-theorem run_locked_granted_fst (srv : Server) (t : Nat) (body : Prog) (tr : List Ev)
+theorem run_locked_granted_fst (srv : Server) (m : Mode) (t : Nat) (body : Prog) (tr : List Ev)
     (h : refused (srv (tr ++ [.lock t])) = false) :
-    (run srv (.locked t body) tr).1 = (run srv body (tr ++ [.lock t])).1 ++ [.unlock t] := by
+    (run srv m (.locked t body) tr).1 = (run srv m body (tr ++ [.lock t])).1 ++ [.unlock t] := by
   simp only [run, h, Bool.false_eq_true, if_false]
   split <;> rfl
 
-theorem run_locked_granted_snd (srv : Server) (t : Nat) (body : Prog) (tr : List Ev)
+theorem run_locked_granted_snd (srv : Server) (m : Mode) (t : Nat) (body : Prog) (tr : List Ev)
     (h : refused (srv (tr ++ [.lock t])) = false)
-    (hu : refused (srv ((run srv body (tr ++ [.lock t])).1 ++ [.unlock t])) = false) :
-    (run srv (.locked t body) tr).2 = (run srv body (tr ++ [.lock t])).2 := by
+    (hu : refused (srv ((run srv m body (tr ++ [.lock t])).1 ++ [.unlock t])) = false) :
+    (run srv m (.locked t body) tr).2 = (run srv m body (tr ++ [.lock t])).2 := by
   simp only [run, h, Bool.false_eq_true, if_false, hu]
 
 /-- A run only ever appends to the trace. -/
-theorem run_extends (srv : Server) (p : Prog) : ∀ tr : List Ev, ∃ d, (run srv p tr).1 = tr ++ d := by
+theorem run_extends (srv : Server) (m : Mode) (p : Prog) : ∀ tr : List Ev, ∃ d, (run srv m p tr).1 = tr ++ d := by
   induction p with
   | skip => intro tr; exact ⟨[], by simp only [run, List.append_nil]⟩
   | req n => intro tr; exact ⟨[.req n], by simp only [run]⟩
@@ -50,24 +50,24 @@ theorem run_extends (srv : Server) (p : Prog) : ∀ tr : List Ev, ∃ d, (run sr
   | seq a b iha ihb =>
     intro tr
     obtain ⟨d₁, h₁⟩ := iha tr
-    cases hr : run srv a tr with
+    cases hr : run srv m a tr with
     | mk tr' x =>
       rw [hr] at h₁
       simp only at h₁
       cases x with
-      | some x => exact ⟨d₁, by rw [run_seq_some srv a b tr tr' x hr]; exact h₁⟩
+      | some x => exact ⟨d₁, by rw [run_seq_some srv m a b tr tr' x hr]; exact h₁⟩
       | none =>
         obtain ⟨d₂, h₂⟩ := ihb tr'
         refine ⟨d₁ ++ d₂, ?_⟩
-        rw [run_seq_none srv a b tr tr' hr, h₂, h₁, List.append_assoc]
+        rw [run_seq_none srv m a b tr tr' hr, h₂, h₁, List.append_assoc]
   | locked t body ih =>
     intro tr
     cases h : refused (srv (tr ++ [.lock t])) with
-    | true => exact ⟨[.lock t], by rw [run_locked_refused srv t body tr h]⟩
+    | true => exact ⟨[.lock t], by rw [run_locked_refused srv m t body tr h]⟩
     | false =>
       obtain ⟨d, hd⟩ := ih (tr ++ [.lock t])
       refine ⟨.lock t :: d ++ [.unlock t], ?_⟩
-      rw [run_locked_granted_fst srv t body tr h, hd]
+      rw [run_locked_granted_fst srv m t body tr h, hd]
       simp only [List.append_assoc, List.cons_append, List.nil_append]
 
 end NcVerif.LockP
